@@ -520,6 +520,14 @@ def invalid_probes(seed, state, nr=3, nc=3):
         g.emit("opt_dual h0")
     if state == "edited":
         g.emit("change_objcoef h0 0 %s" % qstr(g.val()))
+    if state == "basis_loaded":
+        # a basis given by the user in which the range row (the last row) is non-basic at its UPPER side and one structural
+        # column is basic instead; remaining columns at whatever bound they have
+        mm, nn = g.m, g.n
+        cs = ["1"] + ["0"] * (nn - 1)
+        rs = ["1"] * (mm - 1) + ["2"]
+        g.emit("mkbasis b0 %s %s" % ("".join(cs), "".join(rs)))
+        g.emit("load_basis h0 b0")
     m, n = g.m, g.n
 
     def obs():
@@ -598,6 +606,11 @@ def invalid_probes(seed, state, nr=3, nc=3):
         probe("change_sense h0 0 X")
         probe("change_sense h0 0 #0")
         probe("change_senses h0 2 0 L %d Q" % (m - 1))
+        for i in [k for k in range(m) if g.sense[k] == "R"]:
+            # every range row: an illegal letter for the row itself, a legal change of it in a list that fails on a later entry
+            probe("change_sense h0 %d Z" % i)
+            probe("change_senses h0 2 %d L %d G" % (i, m))
+            probe("change_senses h0 2 %d E -1 L" % i)
         nonr = [i for i in range(m) if g.sense[i] != "R"]
         if nonr:
             probe("change_range h0 %d 1" % nonr[0])
@@ -656,4 +669,4 @@ def invalid_probes(seed, state, nr=3, nc=3):
     return g.text()
 
 
-LIFECYCLE = ["empty", "loaded", "solved_exact", "solved_simplex", "solved_dual", "edited"]
+LIFECYCLE = ["empty", "loaded", "solved_exact", "solved_simplex", "solved_dual", "edited", "basis_loaded"]
